@@ -235,29 +235,62 @@ def fold_finish(m: Model):
     return out, [m.loc(TAB, fin) + ' Tableau.finish']
 
 
+def emsg_member(m: Model, name: str, it_globals: dict, consulted: list):
+    """errors.Emsg.<name> as the code builds it: the member's value tuple (evaluated from the Emsg class body) given to the folded
+    EmsgBase.__init__ (tools.abcs rebases the Emsg enum on EmsgBase), so calling it folds EmsgBase.__call__ / _makeas / _getargs."""
+    from .bind import bound_class
+    ERR = 'pytableaux.errors'
+    body = m.clsdef(ClassRef(ERR, 'Emsg')).body
+    st = next((x for x in body if isinstance(x, ast.Assign) and isinstance(x.targets[0], ast.Name) and x.targets[0].id == name), None)
+    if st is None:
+        raise AnalysisError(f'errors.Emsg.{name} not found')
+    it = Interp(dict(it_globals), where='errors.py Emsg / EmsgBase', modtree=m.trees[ERR])
+    val = it.ev(st.value, {})
+    val = val if isinstance(val, tuple) else (val,)
+    cons = set()
+    B = bound_class(m, it, ClassRef(ERR, 'EmsgBase'), consulted=cons, with_init=True)
+    consulted.extend(sorted(cons))
+    consulted.append(m.loc(ERR, st) + f' Emsg.{name}')
+    return B(*val)
+
+
 def fold_check_timeout(m: Model):
     Flag = flag_enum(m)
     fn = m.func(TAB, 'Tableau._check_timeout')
-    from .minieval import Raises
+    from .minieval import Raises, Raised
+
+    class ProofTimeoutErrorM(Exception):
+        pass
+    cons = [m.loc(TAB, fn) + ' Tableau._check_timeout']
+    timeout_member = emsg_member(m, 'Timeout', dict(ProofTimeoutError=ProofTimeoutErrorM), cons)
     out = []
     for has_limit in (False, True):
-        for elapsed in (5, 10, 11):
-            log = []
-            flags = Flag.HAS_TIME_LIMIT if has_limit else Flag(0)
-            tab = Obj('tableau', __srcclass__=(m, ClassRef(TAB, 'Tableau')), flag=flags, opts={'build_timeout': 10})
-            tab.timers = Obj('timers', build=Obj('sw', elapsed_ms=lambda: elapsed))
-            tab.finish = lambda: log.append(('finish', Flag.TIMED_OUT in tab.flag))
-            it = Interp(dict(Emsg=Obj('Emsg', Timeout=lambda *a: 'ProofTimeoutError')), where='proof/tableaux.py Tableau._check_timeout')
-            r = it.safe(fn, [tab])
-            case = f'HAS_TIME_LIMIT={has_limit} elapsed={elapsed}ms timeout=10ms'
-            if has_limit and elapsed > 10:
-                ok = isinstance(r, Raises) and 'Timeout' in r.text and log == [('finish', True)] and Flag.TIMED_OUT in tab.flag
-                want = 'TIMED_OUT set, then finish(), then the timeout error raised'
-            else:
-                ok = r is None and log == [] and Flag.TIMED_OUT not in tab.flag
-                want = 'no effect'
-            out.append((ok, case, f'expected {want}; observed result={r!r} calls={log} flag={tab.flag!r}'))
-    return out, [m.loc(TAB, fn) + ' Tableau._check_timeout']
+        # limits are compared numerically only: integral and fractional millisecond limits alike
+        for limit, elapseds in ((10, (5, 10, 11)), (10.5, (10, 10.5, 11)), (0.5, (0.25, 0.5, 3))):
+            for elapsed in elapseds:
+                log = []
+                flags = Flag.HAS_TIME_LIMIT if has_limit else Flag(0)
+                tab = Obj('tableau', __srcclass__=(m, ClassRef(TAB, 'Tableau')), flag=flags, opts={'build_timeout': limit})
+                tab.timers = Obj('timers', build=Obj('sw', elapsed_ms=lambda: elapsed))
+                tab.finish = lambda: log.append(('finish', Flag.TIMED_OUT in tab.flag))
+                it = Interp(dict(Emsg=Obj('Emsg', Timeout=timeout_member)), where='proof/tableaux.py Tableau._check_timeout')
+                try:
+                    r = it.call(fn, [tab])
+                except ProofTimeoutErrorM as e:
+                    r = e
+                except Raised as e:
+                    r = Raises(e.text)
+                except (TypeError, KeyError, AttributeError, IndexError, ValueError) as e:
+                    r = Raises(f'{type(e).__name__}: {e}')
+                case = f'HAS_TIME_LIMIT={has_limit} elapsed={elapsed}ms timeout={limit}ms'
+                if has_limit and elapsed > limit:
+                    ok = isinstance(r, ProofTimeoutErrorM) and log == [('finish', True)] and Flag.TIMED_OUT in tab.flag
+                    want = 'TIMED_OUT set, then finish(), then the timeout error (ProofTimeoutError) raised'
+                else:
+                    ok = r is None and log == [] and Flag.TIMED_OUT not in tab.flag
+                    want = 'no effect'
+                out.append((ok, case, f'expected {want}; observed result={r!r} calls={log} flag={tab.flag!r}'))
+    return out, cons
 
 
 def fold_next(m: Model):
